@@ -11,6 +11,25 @@ claimed = {
    tech="deterministic simulation: seeded cooperative scheduler over statement-level yield points + simulated sync.Pool with fault injection; sequential-equivalence oracle and memory monitors"),
 }
 
+TRUST = "Trusted: the instrumenter (add-only yield insertion), the simulated pool, the harness' own observation code (digits decoded from BitsExp independently of the library's formatting). Stubbed: sync.Pool. Sampling, not proof; correct rounding of single operations (C01-C05) is assumed where an oracle compares the library with itself."
+claimed.update({
+ "C04": dict(cat="exploration", ref="DESIGN.md §4 C04",
+   text="Panic discipline over simulated histories: an operand-class model (IEEE 754 special cases, written from the property text) decides for every arithmetic step whether it is invalid; exactly those steps must panic, with dynamic type ErrNaN, leaving a valid receiver that the history keeps using; every other panic value on valid arguments - in any of ~60 public operations, deep multi-word operands, lowered knobs, stale/garbage/poisoned scratch - is a violation. The finite operand-class table itself is enumerated exhaustively (fault-free base configuration).",
+   note=TRUST, tech="deterministic simulation of API histories with fault injection (NaN operations, simulated sync.Pool faults, knob changes) + executable operand-class model; exhaustive class sweep as base configuration"),
+ "C08": dict(cat="exploration", ref="DESIGN.md §4 C08",
+   text="Canonical-form invariant evaluated through the public API on every variable after every step of seeded histories (setters, arithmetic, Sqrt, SetPrec/SetMode, parsing incl. malformed literals, gob decoding incl. corrupted payloads, raw SetBitsExp within contract), also after recovered panics and reported failures, with receivers reused/aliased and scratch-pool faults; plus Cmp/representation cross-invariant on every pair.",
+   note=TRUST, tech="deterministic simulation of API histories with fault injection (corrupted payloads, failed parses, NaN panics, simulated sync.Pool faults); invariant checked after every step"),
+ "C09": dict(cat="exploration", ref="DESIGN.md §4 C09",
+   text="Per-step attribute model (precision sticky unless 0 and then the documented default; mode sticky except the documented copying operations) plus a whole-world memory monitor: the complete memory image of every variable except the receiver, and of every package-level variable, is compared at every statement boundary of every operation, so even transient modify-then-restore of an operand is caught.",
+   note=TRUST, tech="deterministic simulation of API histories; statement-level yield hook used as a memory monitor (operand images at every statement boundary) + executable attribute model"),
+ "C10": dict(cat="exploration", ref="DESIGN.md §4 C10",
+   text="Shadow execution: every step of a live history (aliased receiver/operands, receiver carrying whatever buffer, stale words, value, sign and accuracy the history left, scratch pool handing out stale/garbage/poisoned buffers) is repeated on fresh, completely de-aliased memory with a clean pool; both must agree on value, sign, precision, mode, accuracy, return values and panics.",
+   note=TRUST, tech="deterministic simulation of API histories with simulated sync.Pool faults; differential shadow execution on fresh memory as oracle"),
+ "C19": dict(cat="exploration", ref="DESIGN.md §4 C19",
+   text="The Context latch as a state machine under faults: NaN-producing operand classes and NewFloat64(NaN) at drawn positions, foreign panics (error value, string, real runtime.Error) injected at a drawn statement inside a context call, several faults per history; checked step by step against an executable model (pending error, no-op while latched, Err() returns the first error once and re-arms, foreign panics escape and do not latch, otherwise result == bare operation on a fresh receiver carrying the context's precision and mode).",
+   note=TRUST, tech="deterministic simulation with fault injection: failpoint at every statement (injected panics), NaN faults; executable reference model of the context latch"),
+})
+
 pending = {}  # filled below while checks are under construction
 
 na = {
